@@ -156,7 +156,7 @@ def pipeline_diag(work, driver, cases, limit=400, tag="pipe"):
     core.run_cases(driver, "run", os.path.join(d, "cases.ndjson"), os.path.join(d, "trace.ndjson"))
     cfg = os.path.join(d, "P.cfg")
     with open(cfg, "w") as fh:
-        fh.write("SPECIFICATION PSpec\nCONSTANTS NSMaxNodes = 9 NSMaxEdges = 14 CBMaxNodes = 14 CBMaxEdges = 30 POMaxNodes = 24 ACCUMULATE = FALSE RESET_TREE = TRUE\nPOSTCONDITION TraceAccepted\nCHECK_DEADLOCK FALSE\n")
+        fh.write("SPECIFICATION PSpec\nCONSTANTS NSMaxNodes = 9 NSMaxEdges = 14 CBMaxNodes = 14 CBMaxEdges = 30 POMaxNodes = 24 WMMaxNodes = 10 WMMaxEdges = 14 ACCUMULATE = FALSE RESET_TREE = TRUE\nPOSTCONDITION TraceAccepted\nCHECK_DEADLOCK FALSE\n")
     cmd = core.java_cmd(work, d) + ["-workers", "1", "-metadir", os.path.join(d, "meta"), "-noGenerateSpecTE", "-config", cfg,
                                     os.path.join(work.specdir, "PipelineTrace.tla")]
     t0 = time.time()
@@ -182,7 +182,7 @@ def pipeline_diag(work, driver, cases, limit=400, tag="pipe"):
         return None
     if drift:
         log("[pipe] DRIFT (diagnostic, not a verdict): %s" % json.dumps(drift, sort_keys=True))
-    return dict(name="PipelineTrace.tla: %d stage snapshots of %d calls against the phase contracts of Pipeline.tla (layer 2) and %d phase-1 / layering / helper-node / coordinate / route / crossing-count / collect results predicted exactly by CycleBreakOps, NetSimplexOps, BreakAll, PositionOps, RouteOps, OrderCrossings, Collect (layer 3), %d drifting" % (stats["stages"], stats["calls"], stats["l3predictions"], stats["drift"]),
+    return dict(name="PipelineTrace.tla: %d stage snapshots of %d calls against the phase contracts of Pipeline.tla (layer 2) and %d phase-1 / layering / helper-node / ordering / coordinate / route / crossing-count / collect results predicted exactly by CycleBreakOps, NetSimplexOps, BreakAll, WMedianOps, PositionOps, RouteOps, OrderCrossings, Collect (layer 3), %d drifting" % (stats["stages"], stats["calls"], stats["l3predictions"], stats["drift"]),
                 generated=int(m.group(1)), distinct=int(m.group(2)), wall=time.time() - t0, ok=True, drift=drift)
 
 
@@ -227,6 +227,20 @@ def position_model(work, tier):
                        "INVARIANTS SinkTerminates SinkSeparates SinkKeepsOrder ExactSpacing VAlignCentres PackRightAligns VAlignLeftmostZero\nCHECK_DEADLOCK FALSE\n") % k,
                       "Position.tla: SinkColoring / VAlign / PackRight on every proper layered graph with 3 layers, <= %d nodes, widths {0,2,6} (SinkTerminates, SinkSeparates, SinkKeepsOrder, ExactSpacing, VAlignCentres, PackRightAligns)" % k,
                       workers=4)
+
+
+def wmedian_model(work, tier, family):
+    if family == "trees":
+        n = 5 if tier == "quick" else 6
+        return mech_model(work, "WMedianTrees", "WMedian.tla",
+                          'SPECIFICATION Spec\nCONSTANTS Family = "trees" NT = %d MaxPer = 1 MaxEdges = 1\nINVARIANTS TreePlanar PermutationPerLayer ReportedIsActual NotWorseThanInitial\nCHECK_DEADLOCK FALSE\n' % n,
+                          "WMedian.tla: the ordering phase on every rooted tree with %d nodes x both orientations x every edge order, layered by depth (TreePlanar, PermutationPerLayer, ReportedIsActual)" % n,
+                          workers=8)
+    per, me = (2, 4) if tier == "quick" else (3, 4)
+    return mech_model(work, "WMedianLayered", "WMedian.tla",
+                      'SPECIFICATION Spec\nCONSTANTS Family = "layered" NT = 2 MaxPer = %d MaxEdges = %d\nINVARIANTS PermutationPerLayer ReportedIsActual NotWorseThanInitial\nCHECK_DEADLOCK FALSE\n' % (per, me),
+                      "WMedian.tla: the ordering phase on every proper 3-layer graph with <= %d nodes per layer and <= %d edges (PermutationPerLayer, ReportedIsActual, NotWorseThanInitial)" % (per, me),
+                      workers=8)
 
 
 def merge_results(a, b):
